@@ -697,3 +697,42 @@ func NeighbourOID(t *rapid.T, base []uint64) []uint64 {
 		return append([]uint64{1, 3, 6, 1, 4, 1, 311, 2}, base[len(base)-2:]...)
 	}
 }
+
+// SplitContent derives two blobs from a SignedData with encapsulated content whose hashed octets are H: one that
+// carries H[:k] and one that carries H[k:] in its place (same element tag, everything else untouched). Neither is what
+// the signer committed to (0 < k < len(H)). ok is false when the blob has no such content.
+func SplitContent(blob []byte, pick int) (prefix, suffix []byte, k int, ok bool) {
+	build := func(part func(h []byte, k int) []byte) ([]byte, int, bool) {
+		parsed, err := der.ParseOne(blob, der.Options{})
+		if err != nil {
+			return nil, 0, false
+		}
+		root := parsed.Clone()
+		sd, err := cms.Locate(root)
+		if err != nil || sd.EContent0 == nil || len(sd.EContent0.Children) != 1 {
+			return nil, 0, false
+		}
+		ch := sd.EContent0.Children[0]
+		var h []byte
+		if !ch.Constructed || ch.Opaque || ch.Children == nil {
+			h = append(h, ch.Content...)
+		} else {
+			for _, g := range ch.Children {
+				h = append(h, g.Encode()...)
+			}
+		}
+		if len(h) < 2 {
+			return nil, 0, false
+		}
+		k := 1 + pick%(len(h)-1)
+		ch.Children, ch.Content = nil, part(h, k)
+		if ch.Constructed {
+			ch.Opaque = true
+		}
+		return root.Encode(), k, true
+	}
+	var ok1, ok2 bool
+	prefix, k, ok1 = build(func(h []byte, k int) []byte { return append([]byte{}, h[:k]...) })
+	suffix, _, ok2 = build(func(h []byte, k int) []byte { return append([]byte{}, h[k:]...) })
+	return prefix, suffix, k, ok1 && ok2
+}
